@@ -215,6 +215,24 @@ Proof.
   rewrite E1, E2, E5. repeat split; congruence.
 Qed.
 
+(* ---- a declined offer leaves no trace ------------------------------------------------------------ *)
+(* Whatever was offered (expired / wrong-hash / wrong-version / altered ticket, unknown ID ...): when the
+   connection completes as a full handshake, the server's session carries only the identity proved on
+   THIS connection (the certificate the client presented, if the server asked), its own origin, the
+   hello's server name and the negotiated suite; nothing of the declined session. *)
+Theorem declined_leaves_no_trace w cp sv cr :
+  let r := d_log blob (conn_delta' w cp sv) in
+  r_out r = ODone false cr ->
+  cr = false /\
+  exists h s, r_hello r = Some h /\ r_sview r = Some s /\
+    s_ccert s = (if sv_reqcert (sv_cfg sv) then cp_ccert cp else 0) /\
+    s_origin s = Z.of_nat (length (w_log w)) /\ s_suite s = o_fsuite cp /\ s_sni s = h_sni h /\
+    r_src r = None.
+Proof.
+  delta_cases; cbn [r_out r_hello r_sview r_src]; intros H; try discriminate; injection H as <-;
+    (split; [reflexivity|]); do 2 eexists; cbn; repeat split; reflexivity.
+Qed.
+
 (* ---- forged / altered / foreign tickets ------------------------------------------------------ *)
 Lemma not_current_unopenable keys b :
   not_under_current_key seal tamper junk keys b -> forall k, In k keys -> open k b = None.
